@@ -303,22 +303,6 @@ check(const json& c_in)
     D0 = back_subset(F, q, -1);
   }
 
-  if (const char* dv = std::getenv("VERIF_C08_DEBUG_VOXEL"))
-    {
-      const std::size_t v = std::size_t(std::atol(dv));
-      shared_ptr<objective_type> obj = make_objective(F, k.prior, k.use_subsens);
-      obj->set_num_subsets(k.N);
-      shared_ptr<target_type> t = image_from_vec(F, F.start);
-      obj->set_up(t);
-      const std::vector<double> sv = image_vec(F, obj->get_sensitivity());
-      std::cerr.precision(10);
-      std::cerr << "DEBUG voxel " << v << " STIR sensitivity " << sv[v] << " reference " << F.sens_total[v] << " D0 ref " << D0[v] << " start " << F.start[v]
-                << " ref-with-case-switches " << F.reference_with_case_switches << "\n";
-      for (std::size_t b = 0; b < F.P.rows.size(); ++b)
-        for (auto& e : F.P.rows[b])
-          if (std::size_t(e.first) == v)
-            std::cerr << "  ref row of bin(view " << F.P.bins[b].view_num() << ", tang " << F.P.bins[b].tangential_pos_num() << ") has element " << e.second << "\n";
-    }
   // ---------------- run A ----------------
   Run A;
   {
@@ -488,6 +472,8 @@ check(const json& c_in)
   stats().cls(F.reference_with_case_switches ? "reference matrix: fresh cache-free matrix with the case's symmetry switches (ray-tracing ties)"
                                              : "reference matrix: symmetry-free cache-free");
   stats().cls(cat("iterations ", c["iters"].get<int>()));
+  if (F.header_rounded)
+    stats().cls("grid rounded by the Interfile header (case runs on the rounded grid)");
   return Result::pass();
 }
 
